@@ -178,7 +178,7 @@ def build(repo=None):
             ob["function"] = fn_label
             c = ob["clause"]
             if c[:3] in ("C04", "C08", "C09", "C12", "C16"):
-                ob["serves"] = [c[:3]] + (["C12", "C13"] if c[:3] == "C04" else [])
+                ob["serves"] = [c[:3]] + (["C12", "C13", "C17"] if c[:3] == "C04" else [])
                 if c.startswith("C12:no-label") or c.startswith("C16:"):
                     ob["serves"] = ["C12", "C16", "C09"]  # the '?' label protocol: a restore obligation, the C16 mechanism, and what later structured checks (C09) need -- a label left behind makes them raise
                 if c.startswith("C08:the-leaf-loop-enumerates"):
